@@ -297,6 +297,109 @@ def mode_conj_keeps_bf_and_metadata(self, pdg_name, result, OLD):
 
 
 # --------------------------------------------------------------------------------------------------
+# C09 / C10  chains and expansion of a DecFileParser (reference = unfolding of the parser's own flat tables)
+
+
+def parser_tables(p):
+    """{mother: [line dict]} from the flat per-line queries (no PHOTOS keyword, '' == [])."""
+    key = (id(p), id(getattr(p, "_parsed_decays", None)), len(getattr(p, "_parsed_decays", None) or ()))
+    if _TCACHE.get("key") == key:
+        return _TCACHE["T"]
+    T = {}
+    for m in p.list_decay_mother_names():
+        if m in T:
+            continue
+        rows = []
+        for t in p._find_decay_modes(m):
+            d = p._decay_mode_details(t, False)
+            rows.append({"bf": d["bf"], "fs": list(d["fs"]), "model": d["model"], "model_params": d["model_params"]})
+        T[m] = rows
+    _TCACHE["key"], _TCACHE["T"] = key, T
+    return T
+
+
+_TCACHE: dict = {}
+
+
+def _norm_chain(c):
+    (m, modes), = c.items()
+    out = []
+    for d in modes:
+        mp = d.get("model_params")
+        out.append({"bf": d.get("bf"), "fs": [(_norm_chain(x) if isinstance(x, dict) else x) for x in d.get("fs", [])], "model": d.get("model"),
+                    "model_params": [] if mp in ("", None) else list(mp)})
+    return {m: out}
+
+
+def _reach_acyclic(T, m, S=()):
+    on, done = set(), set()
+
+    def visit(x):
+        if x in on:
+            return False
+        if x in done:
+            return True
+        on.add(x)
+        ok = all(visit(d) for ln in T[x] for d in ln["fs"] if d in T and d not in S)
+        on.discard(x)
+        done.add(x)
+        return ok
+
+    return visit(m)
+
+
+_depth = {"chains": 0}
+
+
+@_monitor("C09.build_decay_chains.is_unfolding")
+def chain_is_unfolding(self, mother, stable_particles, result):
+    T = parser_tables(self)
+    if mother not in T or isinstance(stable_particles, (str, bytes)):
+        return
+    S = set(stable_particles)
+    if not _reach_acyclic(T, mother, S):
+        COUNTS["C09.out_of_scope_cyclic"] += 1
+        return
+    exp = chains.ref_unfold(T, mother, S)
+    if _norm_chain(result) != _norm_chain(exp):
+        record("C09", "chain:not-the-unfolding", f"build_decay_chains({mother!r}, {sorted(S)!r}) differs from the recursive unfolding of the tables",
+               {"mother": mother, "stable": sorted(S), "got": repr(result)[:1500], "expected": repr(exp)[:1500]})
+
+
+@_monitor("C10.expand.count_and_paths")
+def expansion_is_paths(self, particle, result):
+    T = parser_tables(self)
+    if particle not in T or not _reach_acyclic(T, particle):
+        return
+    from decaylanguage.utils import DescriptorFormat  # noqa: PLC0415
+
+    memo = {}
+    _, count = chains.ref_sizes(T, particle, memo)
+    detail = {"mother": particle, "n_got": len(result), "n_expected": count}
+    if len(result) != count:
+        record("C10", "expand:count", f"{len(result)} descriptors for {particle!r}, sum-of-products says {count}", detail)
+        return
+    if count > 20000 or DescriptorFormat.config != {"decay_pattern": "{mother} -> {daughters}", "sub_decay_pattern": "({mother} -> {daughters})"}:
+        COUNTS["C10.expand.paths_not_compared"] += 1
+        return
+    allnames = set(T) | {d for rows in T.values() for ln in rows for d in ln["fs"]}
+    if not all(_name_ok(n) and n != "->" for n in allnames):
+        COUNTS["C10.expand.paths_not_compared"] += 1
+        return
+    al = self.dict_aliases()
+    exp = Counter(chains.ref_paths(T, particle, al))
+    try:
+        got = Counter(chains.read_descriptor(s) for s in result)
+    except ValueError as e:
+        record("C10", "expand:unreadable-descriptor", str(e), detail)
+        return
+    if got != exp:
+        miss = list((exp - got).items())[:2]
+        extra = list((got - exp).items())[:2]
+        record("C10", "expand:paths-differ", f"descriptors are not the decay paths: missing {miss!r}, unexpected {extra!r}", detail)
+
+
+# --------------------------------------------------------------------------------------------------
 # C14  DescriptorFormat scoping: shadow stack keyed by context-object identity
 
 SHADOW: dict = {}
@@ -426,6 +529,36 @@ def arm(*groups):
             Y.DaughtersDict.charge_conjugate = icontract.ensure(daughters_conjugated, error=ContractBroken)(Y.DaughtersDict.charge_conjugate)
             g2 = icontract.ensure(mode_conj_keeps_bf_and_metadata, error=ContractBroken)(Y.DecayMode.charge_conjugate)
             Y.DecayMode.charge_conjugate = icontract.snapshot(_snap_mode, name="before")(g2)
+        elif g == "parser_chains":
+            import decaylanguage.dec.dec as D  # noqa: PLC0415
+
+            real_build = D.DecFileParser.build_decay_chains
+            checked = icontract.ensure(chain_is_unfolding, error=ContractBroken)(real_build)
+            bud = Budget.get()
+            bud.watch("decaylanguage.dec.dec:DecFileParser.build_decay_chains")
+            import functools  # noqa: PLC0415
+
+            @functools.wraps(real_build)
+            def build_decay_chains(self, mother, stable_particles=()):
+                # the contract is evaluated for top-level calls only (the function recurses through self.build_decay_chains)
+                if _depth["chains"]:
+                    return real_build(self, mother, stable_particles)
+                _depth["chains"] += 1
+                try:
+                    if bud.limit is None:
+                        try:
+                            T = parser_tables(self)
+                            size = chains.ref_sizes(T, mother, {}, set(stable_particles) if not isinstance(stable_particles, str) else ())[0] if mother in T and _reach_acyclic(T, mother, set(stable_particles)) else 1000
+                        except Exception:  # noqa: BLE001
+                            size = 1000
+                        size = size if size == size and size != float("inf") else 1000
+                        return bud.run(int(300 * (size + 20)), checked, self, mother, stable_particles)
+                    return checked(self, mother, stable_particles)
+                finally:
+                    _depth["chains"] -= 1
+
+            D.DecFileParser.build_decay_chains = build_decay_chains
+            D.DecFileParser.expand_decay_modes = icontract.ensure(expansion_is_paths, error=ContractBroken)(D.DecFileParser.expand_decay_modes)
         elif g == "descriptor_format":
             import decaylanguage.utils.utilities as UU  # noqa: PLC0415
 
